@@ -19,8 +19,8 @@ Tr == ndJsonDeserialize(IOEnv.TRACE)
 
 \* ti / qi: index of the current tree / quiescence-tree event (the dumps stay in the trace,
 \* only the reference values are carried in the state)
-VARIABLES l, ti, vals, qi, qval
-vars == <<l, ti, vals, qi, qval>>
+VARIABLES l, ti, vals, qi, qval, nodraws
+vars == <<l, ti, vals, qi, qval, nodraws>>
 tree == Tr[ti]
 qtree == Tr[qi].root
 
@@ -47,7 +47,11 @@ ExactWritesTrue(e) ==
         => LET n == NodeAt(tree.root, wr.path, 1) IN
            n.h = wr.h /\ Norm(wr.score) = MM(tree.cfg, n, wr.depth)
 
+RECURSIVE NoDraws(_)
+NoDraws(n) == n.d = 0 /\ \A i \in 1..Len(n.k) : NoDraws(n.k[i])
+
 JudgeSearch(e) ==
+  IF e.depth < tree.mindepth THEN {"harness.depth-below-dump"} ELSE
   LET r == e.res
       v == vals[e.depth + 1]
       root == tree.root
@@ -65,7 +69,8 @@ JudgeSearch(e) ==
    \cup Chk("c13.board", SameBoard(e, root))
    ELSE {})
   \cup
-  (IF Want("C11") /\ e.tt = "shared" /\ tree.posdet = 1 THEN
+  \* C11 is stated for searches in which no history-dependent draw arises inside the tree
+  (IF Want("C11") /\ e.tt = "shared" /\ tree.posdet = 1 /\ nodraws THEN
         Chk("c11.value", r.err = "" /\ score = v)
    \cup Chk("c11.pv-missing", (root.d = 0 /\ root.n > 0 /\ HasExplored(root)) => Len(r.pv) >= 1)
    \cup Chk("c11.pv-first-move", (Len(r.pv) >= 1) =>
@@ -86,10 +91,20 @@ JudgeCancel(e) ==
   IF ~Want("C12") THEN {}
   ELSE    Chk("c12.reports-halted", e.res.err = "halted" /\ e.res.score.t = "I" /\ e.res.pv = <<>>)
      \cup Chk("c12.board", SameBoard(e, tree.root))
-     \cup Chk("c12.left-behind", e.next = e.fresh)
+     \* the next search on the same table returns what it returns on a fresh table: the same
+     \* score and a principal variation that begins with a best move (true entries stored by
+     \* sub-searches completed before the halt may shorten the PV tail and the node count, exactly
+     \* as C11 allows for any use of the table)
+     \cup Chk("c12.left-behind-score", e.next.err = "" /\ e.next.score = e.fresh.score)
+     \cup Chk("c12.left-behind-pv", (Len(e.next.pv) = 0) = (Len(e.fresh.pv) = 0))
+     \cup (IF tree.posdet = 1 /\ Len(e.next.pv) >= 1 /\ e.depth >= tree.mindepth
+           THEN Chk("c12.left-behind-bestmove",
+                    LET S == KidByMove(tree.root, e.next.pv[1]) IN
+                    S # {} /\ Up(MM(tree.cfg, tree.root.k[CHOOSE j \in S : TRUE], e.depth - 1)) = vals[e.depth + 1])
+           ELSE {})
      \cup (IF tree.posdet = 1 THEN Chk("c12.exact-entry", ExactWritesTrue(e)) ELSE {})
 
-Init == l = 1 /\ ti = 0 /\ vals = <<>> /\ qi = 0 /\ qval = Lost
+Init == l = 1 /\ ti = 0 /\ vals = <<>> /\ qi = 0 /\ qval = Lost /\ nodraws = TRUE
 
 Next ==
   /\ l <= Len(Tr)
@@ -97,20 +112,22 @@ Next ==
      CASE e.op = "tree" ->
             /\ ti' = l
             /\ vals' = [d \in 1..(e.depth + 1) |-> IF d - 1 >= e.mindepth THEN MM(e.cfg, e.root, d - 1) ELSE Lost]
+            /\ nodraws' = NoDraws(e.root)
+            /\ PrintT("NOTE|tree|nodraws=" \o ToString(NoDraws(e.root)))
             /\ UNCHANGED <<qi, qval>>
        [] e.op = "qtree" ->
             /\ qi' = l /\ qval' = QMM(e.root)
-            /\ UNCHANGED <<ti, vals>>
+            /\ UNCHANGED <<ti, vals, nodraws>>
        [] e.op = "search" ->
             /\ LET f == JudgeSearch(e) IN f # {} => PrintT("FAIL|" \o ToString(l) \o "|" \o ToString(f))
-            /\ UNCHANGED <<ti, vals, qi, qval>>
+            /\ UNCHANGED <<ti, vals, qi, qval, nodraws>>
        [] e.op = "qsearch" ->
             /\ LET f == JudgeQSearch(e) IN f # {} => PrintT("FAIL|" \o ToString(l) \o "|" \o ToString(f))
-            /\ UNCHANGED <<ti, vals, qi, qval>>
+            /\ UNCHANGED <<ti, vals, qi, qval, nodraws>>
        [] e.op = "cancel" ->
             /\ LET f == JudgeCancel(e) IN f # {} => PrintT("FAIL|" \o ToString(l) \o "|" \o ToString(f))
-            /\ UNCHANGED <<ti, vals, qi, qval>>
-       [] OTHER -> UNCHANGED <<ti, vals, qi, qval>>
+            /\ UNCHANGED <<ti, vals, qi, qval, nodraws>>
+       [] OTHER -> UNCHANGED <<ti, vals, qi, qval, nodraws>>
   /\ l' = l + 1
 
 Spec == Init /\ [][Next]_vars
